@@ -24,7 +24,31 @@ pub fn opts() -> GenOpts {
     o.cmd_fallback = true;
     o.adjacent_cmd_last = true;
     o.hidden_cmds = true;
+    o.cmd_catch = true;
     o
+}
+
+/// is the command `id` declared under a wrapper that recovers from its failures (`.catch()`)
+fn cmd_under_catch(root: &Spec, id: Id) -> bool {
+    fn go(s: &Spec, id: Id, caught: bool) -> Option<bool> {
+        match s {
+            Spec::Cmd(c) if c.id == id => Some(caught),
+            Spec::Cmd(c) => go(&c.opts.root, id, false),
+            Spec::Wrap { w, inner, .. } => {
+                let c = matches!(
+                    w,
+                    W::Optional { catch: true }
+                        | W::Many { catch: true }
+                        | W::Some_ { catch: true }
+                        | W::Collect { catch: true }
+                );
+                go(inner, id, caught || c)
+            }
+            Spec::Seq(xs) | Spec::Alt(xs) | Spec::Adj(xs) => xs.iter().find_map(|x| go(x, id, caught)),
+            _ => None,
+        }
+    }
+    go(root, id, false).unwrap_or(false)
 }
 
 fn header_of(id: Id) -> String {
@@ -446,6 +470,13 @@ pub fn run_case(case: &mut Case) {
                             if b.spec.root.find_cmd(*id).map_or(false, |c| c.adjacent))
                     })
                 });
+                // a subcommand under `optional().catch()`: when it fails the line is handed back
+                // to the enclosing level as it was, and that level answers a help item on it
+                let caught_at = (1..path.len()).find(|&i| cmd_under_catch(&b.spec.root, path[i].1));
+                let floor = match caught_at {
+                    Some(i) if base.kind != "valid" => floor.min(i - 1),
+                    _ => floor,
+                };
                 let (lvl, lvl_id) = *path.last().unwrap();
                 let depth = path.len() - 1;
                 if floor < depth {
@@ -499,7 +530,12 @@ pub fn run_case(case: &mut Case) {
                 case.rep.count(&format!("depth:{}", depth));
 
                 if want_version && lvl.version.is_none() {
-                    // an ordinary unknown flag: on a valid line that is a failure
+                    // an ordinary unknown flag: on a valid line that is a failure (which `catch`
+                    // recovers from: the enclosing level then finds its own version flag)
+                    if caught_at.is_some() {
+                        case.rep.inconclusive("unconfigured-version-flag-in-a-caught-command");
+                        continue;
+                    }
                     if base.kind == "valid" && !out.is_stderr() && !matches!(out, Outcome::Panic(_))
                     {
                         case.rep.violation(
